@@ -54,6 +54,11 @@ def derive_texts(rng, value):
     k = max(1, n // 3)
     cands = [("whole", v), ("prefix", v[:k]), ("suffix", v[-k:]), ("infix", v[1:1 + k] if n > 2 else v), ("whole-casechanged", swapcase_ascii(v)), ("prefix-casechanged", swapcase_ascii(v[:k])),
              ("suffix-casechanged", swapcase_ascii(v[-k:])), ("absent", "zq" + v[:2] + "qz"), ("whole-unicode-casechanged", v.swapcase()), ("longer", v + "x")]
+    # white space at the edge of the text is part of the text (PCDATA, RFC 6352 10.5.4)
+    words = v.split(" ")
+    cands += [("ws-last-word-plus-space", words[-1] + " "), ("ws-space-plus-first-word", " " + words[0]), ("ws-only", " ")]
+    if len(words) > 1:
+        cands += [("ws-first-word-plus-space", words[0] + " "), ("ws-space-plus-last-word", " " + words[-1])]
     return cands
 
 
@@ -98,6 +103,8 @@ def gen_filter(rng, cards):
         feat = "text-match/%s/%s%s%s" % (mt or "default-contains", col or "default-collation", "/negate" if neg else "", "/nonascii" if nonascii else "")
         if rel.endswith("unicode-casechanged") and nonascii:
             feat += "/nonascii-case-differs"
+        if rel.startswith("ws-"):
+            feat += "/text-with-edge-whitespace"
         return {"name": spell, "text_matches": [{"text": text, "match_type": mt, "collation": col, "negate": neg}]}, feat
     if r < 0.05:
         return {"props": []}, "empty-filter"
@@ -207,6 +214,8 @@ def run_shard(args):
                 res.count("queries")
                 res.seen(feat, limit is not None)
                 res.count("feature:" + feat.split("/")[0])
+                if "text-with-edge-whitespace" in feat:
+                    res.count("feature:edge-whitespace-text")
                 if got is None:
                     cause = ""
                     import re
@@ -262,7 +271,7 @@ def check(tier, seed, t0):
     k = 1 if not th else 10
     guards = [("queries", c.get("queries", 0), 3000 * k), ("(card, query) judgements", c.get("judgements", 0), 40000 * k), ("expected matches", c.get("expected_match", 0), 5000 * k),
               ("expected non-matches", c.get("expected_nomatch", 0), 5000 * k), ("address-data comparisons", c.get("address_data_compared", 0), 3000 * k), ("limited queries", c.get("limited_queries", 0), 300 * k)]
-    for f in ("text-match", "presence", "is-not-defined", "param-presence", "param-is-not-defined", "param-text-match", "empty-filter"):
+    for f in ("text-match", "presence", "is-not-defined", "param-presence", "param-is-not-defined", "param-text-match", "empty-filter", "edge-whitespace-text"):
         guards.append(("feature " + f, c.get("feature:" + f, 0), 10))
     return common.finish(PROP, tier, seed, "exploration", merged, failures, RULE, t0, guards=guards,
                          assumptions=["vf/cardoracle.py implements RFC 6352 10.5 (self-tested)", "only unstructured text properties are used in text-match cases", "i;unicode-casemap is modelled by str.casefold() on cases where simple case mapping applies"])
